@@ -548,35 +548,50 @@ func ruleSortDefaults(p *Program, r *Run, rule string) {
 	wr := p.MustFunc(p.PQL, "subquery.write")
 	pinfo := p.PQL.TypesInfo
 	r.Saw(FuncName(p.PQL, wr))
+	_ = pinfo
+	g := p.Grammar()
+	// decided on the derived grammar: wherever one of the four words is written, the path facts say which value the
+	// term's flag has - whatever the shape of the code that picks the word (if/else, a variable, a helper)
 	check := func(field, thenWord, elseWord string) {
-		ok := false
-		ast.Inspect(wr.Body, func(n ast.Node) bool {
-			ifs, isIf := n.(*ast.IfStmt)
-			if !isIf || ifs.Else == nil {
-				return true
+		seen := map[string]bool{}
+		ok := true
+		why := ""
+		for _, o := range g.occs {
+			if o.Ev.Kind != "T" {
+				continue
 			}
-			f := selField(pinfo, ifs.Cond)
-			if f == nil || f.Name() != field {
-				return true
+			word := strings.ToUpper(strings.TrimSpace(o.Ev.Text))
+			if word != thenWord && word != elseWord {
+				continue
 			}
-			words := func(b ast.Node) string {
-				var out []string
-				ast.Inspect(b, func(m ast.Node) bool {
-					if ex, isE := m.(ast.Expr); isE {
-						if s, isS := constString(pinfo, ex); isS {
-							out = append(out, strings.TrimSpace(s))
+			// the flag of the term being written
+			val, known := "", false
+			for _, k := range o.St.Keys() {
+				if strings.HasSuffix(k, "."+field) && !strings.HasPrefix(k, "val:") {
+					if f := o.St.Get(k); f != nil && f.HasEq {
+						if known && val != f.Eq {
+							known = false
+							break
 						}
+						val, known = f.Eq, true
 					}
-					return true
-				})
-				return strings.Join(out, " ")
+				}
 			}
-			if words(ifs.Body) == thenWord && words(ifs.Else) == elseWord {
-				ok = true
+			seen[word] = true
+			want := "false"
+			if word == thenWord {
+				want = "true"
 			}
-			return true
-		})
-		r.Check(ok, rule, fmt.Sprintf("pql.(*subquery).write renders %s", field), p.Pos(wr.Pos()), fmt.Sprintf("%s -> %q, otherwise %q", field, thenWord, elseWord), fmt.Sprintf("the ORDER BY writer does not render %s as %q / %q", field, thenWord, elseWord))
+			if !known || val != want {
+				ok = false
+				why = fmt.Sprintf("%q is written at %s where %s is %s", word, p.Pos(o.Ev.Call.Pos()), field, map[bool]string{true: val, false: "not determined"}[known])
+			}
+		}
+		if !seen[thenWord] || !seen[elseWord] {
+			ok = false
+			why = fmt.Sprintf("words written: %v", keysOf(seen))
+		}
+		r.Check(ok, rule, fmt.Sprintf("pql.(*subquery).write renders %s", field), p.Pos(wr.Pos()), fmt.Sprintf("%s -> %q, otherwise %q (path facts at every place either word is written)", field, thenWord, elseWord), fmt.Sprintf("the ORDER BY writer does not render %s as %q / %q: %s", field, thenWord, elseWord, why))
 	}
 	check("Asc", "ASC", "DESC")
 	check("NullsFirst", "NULLS FIRST", "NULLS LAST")
